@@ -10,6 +10,8 @@ from .runner import M
 CL = "src/allmydata/introducer/client.py"
 CO = "src/allmydata/introducer/common.py"
 SV = "src/allmydata/introducer/server.py"
+ED = "src/allmydata/crypto/ed25519.py"
+LIBV = "        public_key.verify(alleged_signature, data)\n"
 
 TRY = ("            try:\n                # this might raise UnknownKeyError or bad-sig error\n"
        "                ann, key_s = unsign_from_foolscap(ann_t)\n                # key is \"v0-base32abc123\"\n"
@@ -82,8 +84,25 @@ MUTANTS = [
     M("server-no-seqnum-accepted", SV,
       "                        self._debug_counts[\"inbound_no_seqnum\"] += 1\n                        return\n",
       "                        self._debug_counts[\"inbound_no_seqnum\"] += 1\n", "C34.4"),
+    # ---- C34.6 the library check inside crypto.ed25519.verify_signature
+    M("libverify-dropped", ED, LIBV, "        pass\n", "C34.6"),
+    M("libverify-args-swapped", ED, LIBV, "        public_key.verify(data, alleged_signature)\n", "C34.6"),
+    M("libverify-empty-signature-skipped", ED, "    _validate_public_key(public_key)\n    try:\n" + LIBV,
+      "    _validate_public_key(public_key)\n    if not alleged_signature:\n        return None\n    try:\n" + LIBV, "C34.6"),
+    M("libverify-failure-returns-false", ED, LIBV + "    except InvalidSignature:\n        raise BadSignature()\n",
+      LIBV + "    except InvalidSignature:\n        return False\n", "C34.6"),
+    M("libverify-normalised-data", ED, LIBV, "        data = data.strip()\n        public_key.verify(alleged_signature, data)\n", "C34.6"),
+    M("libverify-other-key", ED, LIBV,
+      "        Ed25519PublicKey.from_public_bytes(data[:32]).verify(alleged_signature, data)\n", "C34.6"),
+    M("benign-libverify-keywords", ED, LIBV, "        public_key.verify(signature=alleged_signature, data=data)\n", None),
+    M("benign-libverify-hoisted", ED, LIBV,
+      "        sig = alleged_signature\n        signed = data\n        key = public_key\n        key.verify(sig, signed)\n", None),
+    M("benign-libverify-else-return", ED, LIBV + "    except InvalidSignature:\n        raise BadSignature()\n",
+      LIBV + "    except InvalidSignature:\n        raise BadSignature()\n    else:\n        return None\n", None),
+    M("vanish-verify-signature", ED, "def verify_signature(public_key, alleged_signature: bytes, data: bytes):",
+      "def verify_signature_v2(public_key, alleged_signature: bytes, data: bytes):", "ANALYSIS-ERROR"),
     # ---- benign
-    M("benign-handler-repaired", CL, "            except BadSignature:\n", "            except Exception:\n", None),
+    M("benign-handler-repaired",CL, "            except BadSignature:\n", "            except Exception:\n", None),
     M("benign-handler-repaired-tuple", CL, "            except BadSignature:\n",
       "            except (BadSignature, UnknownKeyError, ValueError, AssertionError):\n", None,
       edits=[(CL, IMPORT, "from allmydata.introducer.common import sign_to_foolscap, unsign_from_foolscap,\\\n"
